@@ -60,19 +60,13 @@ Example D7_known_refuted : let s := run_doc "xhtml" 0 ".Im i.png cap
 " in quiet s = true /\ wf_fragment (out_of s) = false.
 Proof. vm_compute. split; reflexivity. Qed.
 
-(* proved for every document of a sub-language and every world: text lines, .Bm, .Em and .Sm blocks (any arguments)
-   and argument-less .P, XHTML fragment mode.  The output is read by the tag machine of Proofs/Tok.v: it ends in character data
-   with no element left open, and no closing tag ever mismatched (the machine would be stuck in Bad). *)
-Require Tok Inv Frag.
-Theorem C02_fragment_balanced_partial : forall fuel wd main bs, Forall Frag.in_frag bs ->
-  let s := snd (compile fuel (R "xhtml") 0 wd main bs) in
-  panicked s = None ->
-  Tok.run (flat (wout s)) (Tok.Txt, []) = (Tok.Txt, []) /\ In (curfile s, flat (wout s)) (files s).
-Proof. exact Frag.C02_fragment_balanced. Qed.
-Print Assumptions C02_fragment_balanced_partial.
-(* the same with display blocks .Bd/.Ed nested to any depth (block stack and its closing at end of file included):
-   unclosed, mismatched or stray .Ed/.Em lines are reported by the model and the output still balances *)
-Require FragB.
+(* proved for every document of a sub-language, every world and every positive nesting fuel: text lines, .Bm, .Em and .Sm
+   (any arguments), argument-less .P, and display blocks .Bd/.Ed nested to any depth, XHTML fragment mode.  The output
+   is read by the tag machine of Proofs/Tok.v: it ends in character data with no element left open, and no closing tag
+   ever mismatched (the machine would be stuck in Bad); the block stack and the inline scopes are closed at end of file;
+   unclosed, mismatched or stray .Ed/.Em lines are reported by the model and the output still balances. *)
+Require Tok Inv FragB.
+
 Theorem C02_blocks_balanced_partial : forall fuel wd main bs, Forall FragB.in_frag bs ->
   let s := snd (compile (S fuel) (R "xhtml") 0 wd main bs) in
   panicked s = None /\
